@@ -45,7 +45,7 @@ mutual
       | .NAME =>
         if hdKind ts = .LSQBRAC then
           match pAdd n ts.tail with
-          | some (e, r :: rs) => if r.kind = .RSQBRAC then some (.idx t.text e, rs) else none
+          | some (e, r :: rs) => if r.kind = .RSQBRAC then some (.idx t.text t.pos e, rs) else none
           | _ => none
         else some (.var t.text t.pos, ts)
       | .LBRACE =>
